@@ -88,6 +88,18 @@ def correspondence(ctx):
         out.setdefault("notes", []).append("Conn half (checks/c11.py) not built yet")
     except AttributeError:
         out.setdefault("notes", []).append("checks/c11.py has no conn_cut_cases yet")
+    # Transport half through kafka.Transport itself (pool behaviour after a cut response): checks/c06.py
+    try:
+        c06 = importlib.import_module("checks.c06")
+        tc = c06.transport_cut_cases(ctx)
+        out["evaluations"] += tc.get("evaluations", 0)
+        out["distinct_nontrivial"] += tc.get("distinct_nontrivial", 0)
+        out["failures"] += tc.get("failures", [])
+        out["extra"]["transport_pool_cut_evaluations"] = tc.get("evaluations", 0)
+        out["extra"]["transport_pool_hist"] = tc.get("hist", {})
+        out["samples"] += tc.get("samples", [])[:2]
+    except (ModuleNotFoundError, AttributeError):
+        out.setdefault("notes", []).append("checks/c06.py has no transport_cut_cases yet")
     return out
 
 
